@@ -51,7 +51,7 @@ func cmdManifest() int {
 		Reason     string `json:"reason"`
 	}
 	var checks []check
-	var nas []na
+	nas := []na{}
 	var served []string
 	for _, p := range allProps {
 		rs := rulesFor(p)
